@@ -720,6 +720,10 @@ Proof.
   destruct (mreq P D s); reflexivity.
 Qed.
 
+Ltac split_ifs :=
+  repeat match goal with
+         | H : context [if ?c then _ else _] |- _ => destruct c eqn:?
+         end.
 Ltac use_rr :=
   repeat match goal with
          | H : req_result _ _ _ _ = _ |- _ => apply req_result_q in H; destruct H as [? ?]
@@ -769,16 +773,16 @@ Proof.
     destruct (req_result P D s1 e1) as [s2 o2] eqn:E2. apply req_result_q in E2 as [Q2 A2].
     intros H; inversion H; subst. rewrite A2. eapply T_app; [exact E1 | apply T_quiet; exact Q2].
   - (* EvReqAbort *)
-    cbn [step]. intros H. repeat (bm_hyp H); use_rr;
+    cbn [step]. intros H. repeat (bm_hyp H); use_rr; split_ifs;
       try (inversion H; subst; clear H; prep; T_chain; fail).
   - (* EvReqStop *)
-    cbn [step]. intros H. repeat (bm_hyp H); use_rr;
+    cbn [step]. intros H. repeat (bm_hyp H); use_rr; split_ifs;
       try (inversion H; subst; clear H; prep; T_chain; fail).
   - (* EvReqHalt *)
-    cbn [step]. intros H. repeat (bm_hyp H); use_rr;
+    cbn [step]. intros H. repeat (bm_hyp H); use_rr; split_ifs;
       try (inversion H; subst; clear H; prep; T_chain; fail).
   - (* EvReqSuspend *)
-    cbn [step]. intros H. cbv zeta in H. repeat (bm_hyp H); use_rr;
+    cbn [step]. intros H. cbv zeta in H. repeat (bm_hyp H); use_rr; split_ifs;
       try (inversion H; subst; clear H; prep; T_chain; fail).
   - (* EvStatus *)
     cbn [step]. intros H. destruct (negb ok && negb (pardon P D (set_statuses P D s (aset sid (Some ok) (statuses P D s)))));
